@@ -202,3 +202,5 @@ class C07(Check):
 
 
 CHECK = C07()
+# scope added in later rounds, kept in the evidence text
+CHECK.rule += ' Tagged scripts (the C01 tag scope) under the same gap oracle.'
